@@ -16,6 +16,12 @@ abbrev Name := Nat
 /-- Python `p[a:b]` for `0 ≤ a`, `0 ≤ b` -/
 def slice (p : Bytes) (a b : Nat) : Bytes := (p.drop a).take (b - a)
 
+/-- Python slice with possibly negative bounds -/
+def pySlice (p : Bytes) (a b : Int) : Bytes :=
+  let n : Int := p.length
+  let norm (x : Int) : Nat := (if x < 0 then (if x + n < 0 then 0 else x + n) else if x > n then n else x).toNat
+  slice p (norm a) (norm b)
+
 /-- `int.to_bytes(k, "little")` on a natural (caller checks the range) -/
 def toLE : Nat → Nat → Bytes
   | 0, _ => []
